@@ -107,24 +107,30 @@ namespace
             switch (k)
             {
             case S_PUSH:
+            case S_EMPLACE:
             {
                 E e(val);
                 if (mx.size() == N) { overflow_offered = true; probe("push_when_full"); fault("input_beyond_capacity"); }
+                // fault: the element's constructor throws while it is being appended - the container must be unchanged
+                bool boom = std::is_same<E, tracked::T>::value && mod(arg(o, 3), 7) == 0;
+                bool thrown = false;
                 R.guard = true;
-                x.push_back(e);
+                if (boom) R.throw_after = 1;
+                try
+                {
+                    if (k == S_PUSH) x.push_back(e);
+                    else x.emplace_back(val);
+                }
+                catch (const tracked::Boom &)
+                {
+                    thrown = true;
+                    probe("append_with_throwing_constructor");
+                }
+                R.throw_after = 0;
                 R.guard = false;
-                mx.push_back(val);
-                truncate(mx);
+                if (!thrown) { mx.push_back(val); truncate(mx); }
                 break;
             }
-            case S_EMPLACE:
-                if (mx.size() == N) { overflow_offered = true; probe("push_when_full"); fault("input_beyond_capacity"); }
-                R.guard = true;
-                x.emplace_back(val);
-                R.guard = false;
-                mx.push_back(val);
-                truncate(mx);
-                break;
             case S_RESIZE:
             {
                 size_t n = (size_t)mod(arg(o, 2), 2 * N + 2);
